@@ -139,7 +139,9 @@ type recipe struct {
 	slots      [15][2]uint16 // final table contents
 	me         *meSpec
 	bios       []biosElem
+	biosRaw    []byte // if set: the BIOS region's bytes verbatim (volumes with files from the shared generator)
 	rawFill    byte
+	reserved   [2]byte // the two reserved bytes in front of the region section (kept by Assemble since d9ba762)
 }
 
 var (
@@ -322,6 +324,12 @@ func (rc *recipe) build() []byte {
 		size := end - base*blk
 		var d []byte
 		switch {
+		case i == 0 && rc.biosRaw != nil:
+			d = make([]byte, size)
+			for k := range d {
+				d[k] = 0xff
+			}
+			copy(d, rc.biosRaw)
 		case i == 0:
 			fill := byte(0xff)
 			if len(rc.bios) > 0 && rc.bios[len(rc.bios)-1].fv == nil {
@@ -364,7 +372,7 @@ func (rc *recipe) build() []byte {
 	rs := int(rc.regionBase) * 16
 	if rs+64 <= blk {
 		sec := d[rs : rs+64]
-		sec[0], sec[1] = 0, 0 // kept zero: independent of the C01 #19 repair
+		sec[0], sec[1] = rc.reserved[0], rc.reserved[1] // reserved: Assemble keeps them (fix d9ba762, DESIGN §8 #19)
 		binary.LittleEndian.PutUint16(sec[2:], rc.eraseSize)
 		for i := 0; i < 15; i++ {
 			binary.LittleEndian.PutUint16(sec[4+4*i:], rc.slots[i][0])
